@@ -109,7 +109,7 @@ def build():
             proof { assert(rev_bits@[i as int] == index_bits@[glmh - 1 - i]); assert(is_bool(bv[glmh - 1 - i])); assert(b0.has(index_bits@[glmh - 1 - i])); assert(bv[glmh - 1 - i] == b0.val(index_bits@[glmh - 1 - i])); } ''' + e.body[lo + 1:]
         e.before('let bits_done = i + 1;', 'proof { reveal_with_fuel(echain, 2); assert(builder.val(g_pow) == echain(bv, glmh, hm, i + 1)); }')
         e.at_loop_end('for i in 0..h_max', '''proof {
-                assert forall|h: usize| result.m@.dom().contains(h) <==> (capture_set.s@.contains(h) && h <= i + 1) by {
+                assert forall|h: usize| #![trigger result.m@.dom().contains(h)] #![trigger capture_set.s@.contains(h)] result.m@.dom().contains(h) <==> (capture_set.s@.contains(h) && h <= i + 1) by {
                     if capture_set.s@.contains(bits_done) { assert(result.m@.dom() =~= m_i0.dom().insert(bits_done)); } else { assert(result.m@ == m_i0); }
                     assert(m_i0.dom().contains(h) <==> (capture_set.s@.contains(h) && h <= i));
                 }
@@ -130,7 +130,7 @@ def build():
             ('powers', 'builder.extends_pure(&b0) && builder.has_all(v_s_@) && v_s_@.len() == s_ && cur_s_ == nsqn(gen(hm), s_ as nat) && forall|q: int| 0 <= q < s_ ==> builder.val(#[trigger] v_s_@[q]) == lift::<EF>(nsqn(gen(hm), q as nat))')])
         e.loop('for i in 0..h_max', invariants=[
             ('chain', f'builder.extends_pure(&b1) && {CONSTS} && builder.has(g_pow) && builder.val(g_pow) == echain(bv, glmh, hm, i as int)'),
-            ('keys', 'forall|h: usize| result.m@.dom().contains(h) <==> (capture_set.s@.contains(h) && h <= i)'),
+            ('keys', 'forall|h: usize| #![trigger result.m@.dom().contains(h)] #![trigger capture_set.s@.contains(h)] result.m@.dom().contains(h) <==> (capture_set.s@.contains(h) && h <= i)'),
             ('values', 'forall|h: usize| result.m@.dom().contains(h) ==> builder.has(#[trigger] result.m@[h]) && builder.val(result.m@[h]) == eval_point::<EF>(bv, glmh, hm, h as int)'),
         ])
     u.text('verus! {')
